@@ -72,6 +72,10 @@ func runProperty(id, repo, verif string, thorough bool, only string, dump bool) 
 		seed, _ = strconv.Atoi(s)
 	}
 	outDir := filepath.Join(verif, "out", id)
+	if d := os.Getenv("VERIF_EVIDENCE_DIR"); d != "" {
+		// selftest runs: keep scratch output and evidence away from the registered locations
+		outDir = filepath.Join(d, "out", id)
+	}
 	os.RemoveAll(outDir)
 	os.MkdirAll(outDir, 0o755)
 	rep := &Report{ID: id, Tier: tier, Seed: seed, cfg: &cfg, verif: verif, repo: repo, outDir: outDir, t0: t0}
